@@ -1,4 +1,5 @@
 import CedarVerif.Lemmas.TCOps
+import CedarVerif.Lemmas.TCRemove
 import CedarVerif.Cedar.Eval
 /-
 C04 — Hierarchy membership equals parent-reachability after any store history.
@@ -189,6 +190,20 @@ theorem add_inv_partial (s : Store α) (es : List (α × Node α)) (hinv : Inv s
       have l4 := (addLoop_spec es s [] s1 t h2 hp).2.2.2
       intro hac
       exact (acyclic_pg s1).mp (l4 ▸ hac) x hx
+
+/-- C04, `remove_entities` at full strength: for every store satisfying the invariant and every list of
+    uids (absent ones, repeated ones, a node together with its ancestors or descendants, in any order) the
+    operation is accepted, re-establishes `Inv` — no ancestor survives the removal of the only path that
+    justified it, every ancestor with an alternative path survives — and the parent graph is the spec's
+    (records deleted *and* parent links to them deleted). It never fails. -/
+theorem remove_inv (s : Store α) (us : List α) (hinv : Inv s) :
+    ∃ s', removeEntities .compute s us = .ok s' ∧ Inv s' ∧ parentGraph s' = specRemove (parentGraph s) us :=
+  removeEntities_ok s us hinv
+
+/-- non-vacuity: x → a → t, x → b → t, a → p; removing `a` keeps `t` (alternative path) and drops `p` -/
+example : (removeEntities .compute
+    [(0, ({ parents := [1, 2], indirect := [9, 7] } : Node Nat)), (1, { parents := [9, 7], indirect := [] }),
+     (2, { parents := [9], indirect := [] })] [1]).toOption.map (fun s => ancestors s 0) = some [2, 9] := by decide
 
 /-! ### `in` -/
 
